@@ -10,6 +10,8 @@ from ..core import AnalysisError, const_value
 from ..defuse import DefUse, Terms, show, walk_term
 from ..defuse import key as tkey
 from ..memo import check_no_cross_call_state
+from ..paths import path_variants
+from ..tutil import norm_calls
 
 EXPLANATION = (
     "Static analysis of picked_protein.picked_protein / strip_peptides / "
@@ -151,141 +153,228 @@ def _strip(ctx, f):
 
 
 def _picked(ctx, f):
+    """Sink-driven: the frame that picked_protein returns is unwound from
+    the return statement back to the peptide table (one reading per value of
+    proteins.has_decoys)."""
     prog = ctx.prog
-    du = DefUse(prog, f)
-    T = Terms(du, phi_vars=True)
-    cfg = CFG(f.node)
     (p_pep, p_tc, p_pc, p_sc, p_prot, p_rng) = f.params
-    stores = {}
-    for n in ast.walk(f.node):
-        if isinstance(n, ast.Assign) and isinstance(
-                n.targets[0], ast.Subscript) and isinstance(
-                    n.targets[0].value, ast.Name):
-            stores.setdefault((n.targets[0].value.id, const_value(
-                n.targets[0].slice)), []).append(n)
-    frame = "prots"
-    ss = stores.get((frame, "stripped sequence"), [])
-    ok = len(ss) == 1 and ast.unparse(ss[0].value) == \
-        f"strip_peptides({frame}['best peptide'])"
-    ctx.check(ok, "C15a-key-is-stripped-best-peptide", f,
-              "the lookup key is the stripped form of the row's own best "
-              "peptide", f"{[ast.unparse(s)[:80] for s in ss]}",
-              node=f.node)
-    keep = [n for n in f.node.body if isinstance(n, ast.Assign)
-            and ast.unparse(n.targets[0]) == frame]
-    ok_k = bool(keep) and ast.unparse(keep[0].value).replace(" ", "") == (
-        f"{p_pep}.loc[:,keep].rename(columns={{{p_pc}:'bestpeptide'}})")
-    ctx.check(ok_k, "C15a-frame-from-peptide-table", f,
+    P = {n: ("param", n) for n in f.params}
+    HAS = ("attr", P[p_prot], "has_decoys")
+    readings = {}
+    for v in path_variants(f.node):
+        vT = Terms(DefUse(prog, f, fnode=v.fnode))
+        vals = set()
+        consistent = True
+        for t, o in v.conds:
+            tt = vT.of(t)
+            while tt[0] == "un" and tt[1] == "not":
+                tt, o = tt[2], not o
+            if tt == HAS:
+                vals.add(o)
+        if len(vals) > 1:
+            continue            # contradictory branch choices
+        rs = [t for _r, t in vT.returns()]
+        if not rs:
+            continue
+        for fl in (vals or {True, False}):
+            readings.setdefault(fl, set()).update(rs)
+    ctx.require(set(readings) == {True, False} and all(
+        len(x) == 1 for x in readings.values()),
+        f"{f.qual}: returned frame not determined per value of has_decoys")
+
+    def layers(t):
+        """the frame term unwound into its layers, outermost first:
+        ('store', key, value, frame-with-this-layer) | ('rows', mask,
+        frame) ...; ends with ('base', term)"""
+        out = []
+        while True:
+            if t[0] == "store" and t[2][0] == "const":
+                out.append(("store", t[2][1], t[3], t))
+                t = t[1]
+            elif t[0] == "sub" and t[1][0] == "attr" and t[1][2] == "loc" \
+                    and t[2][0] == "tuple" and len(t[2][1]) == 2 and \
+                    t[2][1][1] == ("slice", ("const", None),
+                                   ("const", None), ("const", None)):
+                out.append(("rows", t[2][1][0], t))
+                t = t[1][1]
+            else:
+                out.append(("base", t))
+                return out
+
+    def unwind(ret):
+        fx = {"problems": []}
+        if not (ret[0] == "sub" and ret[1][0] == "attr"
+                and ret[1][2] == "loc" and ret[2][0] == "tuple"
+                and len(ret[2][1]) == 2):
+            return None, (f"result is {show(ret, 100)}, not "
+                          "frame.loc[rows, cols]")
+        fx["F4"] = ret[1][1]
+        fx["pick"], fx["cols"] = ret[2][1]
+        ls = layers(fx["F4"])
+        names = [(x[0], x[1] if x[0] == "store" else None) for x in ls]
+
+        def find(kind, key=None):
+            for i, x in enumerate(ls):
+                if x[0] == kind and (key is None or x[1] == key):
+                    return i
+            return None
+
+        i_dec = find("store", "decoy")
+        i_grp = find("store", "mokapot protein group")
+        i_key = find("store", "stripped sequence")
+        i_rows = find("rows")
+        fx["decoy"] = ls[i_dec][2] if i_dec is not None else None
+        fx["groups"] = ls[i_grp][2] if i_grp is not None else None
+        fx["F2"] = ls[i_grp][3] if i_grp is not None else None
+        fx["key"] = ls[i_key][2] if i_key is not None else None
+        fx["F1"] = ls[i_key][3] if i_key is not None else None
+        fx["F0"] = ls[-1][1]
+        # rows are filtered after the groups are known and before the
+        # pairing column is built
+        fx["rowmask"] = None
+        fx["F3"] = None
+        if i_rows is not None and i_grp is not None and i_rows < i_grp \
+                and (i_dec is None or i_dec < i_rows):
+            fx["rowmask"] = ls[i_rows][1]
+            fx["F3"] = ls[i_rows][2]
+        fx["order"] = names
+        return fx, None
+
+    facts = {}
+    for fl, terms in readings.items():
+        fx, why = unwind(next(iter(terms)))
+        ctx.require(fx is not None, f"{f.qual}: {why}")
+        if fx["key"] is None or fx["groups"] is None:
+            ctx.check(False, "C15c-labels-applied-to-same-frame", f,
+                      "the picked index labels select rows (.loc) of the "
+                      "very frame they were computed from",
+                      f"the result is cut from {show(fx['F4'], 100)}, which "
+                      "is not the working frame (no stripped sequence / "
+                      "protein group column)", node=f.node)
+            return
+        facts[fl] = fx
+    fx = facts[True]
+    F0 = fx["F0"]
+    none = ("const", None)
+    want_F0 = ("mcall", ("sub", ("attr", P[p_pep], "loc"), ("tuple", (
+        ("slice", none, none, none),
+        ("list", (P[p_tc], P[p_pc], P[p_sc]))))), "rename", (),
+        (("columns", ("dict", (P[p_pc],), (("const", "best peptide"),))),))
+    ctx.check(all(x["F0"] == want_F0 for x in facts.values()),
+              "C15a-frame-from-peptide-table", f,
               "the working frame is the peptide table's label, peptide and "
               "score columns, the peptide column renamed 'best peptide'",
-              f"{ast.unparse(keep[0].value)[:100] if keep else None}",
+              f"working frame is {show(F0, 160)}", node=f.node)
+    want_key = ("call", PP + "strip_peptides",
+                (("sub", F0, ("const", "best peptide")),), ())
+    ctx.check(all(x["key"] == want_key for x in facts.values()),
+              "C15a-key-is-stripped-best-peptide", f,
+              "the lookup key is the stripped form of the row's own best "
+              "peptide", f"key column is {show(fx['key'], 120)}",
               node=f.node)
-    grp = stores.get((frame, "mokapot protein group"), [])
-    ok_g = len(grp) == 2
-    if ok_g:
-        vals = sorted(ast.unparse(g.value).replace("\n", "") for g in grp)
-        ok_g = vals[0].startswith(f"group_with_decoys({frame}, {p_prot})") \
-            and vals[1].startswith(
-                f"group_without_decoys({frame}, {p_tc}, {p_prot}")
-        branch = [any(ast.unparse(t[0]) == f"{p_prot}.has_decoys"
-                      for t in cfg.guards(g)) for g in grp]
-        ok_g = ok_g and all(branch)
+    F1 = fx["F1"]
+    want_g = {
+        True: ("call", PP + "group_with_decoys", (F1, P[p_prot]), ()),
+        False: ("call", PP + "group_without_decoys",
+                (F1, P[p_tc], P[p_prot], P[p_rng]), ()),
+    }
+    ok_g = all(norm_calls(prog, facts[fl]["groups"])
+               == norm_calls(prog, want_g[fl]) for fl in (True, False))
     ctx.check(ok_g, "C15a-group-lookup", f,
               "protein groups come from group_with_decoys / "
               "group_without_decoys depending on the FASTA",
-              f"{[ast.unparse(g.value)[:60] for g in grp]}", node=f.node)
+              str({fl: show(facts[fl]["groups"], 80)
+                   for fl in (True, False)}), node=f.node)
     gw = prog.func(PP + "group_with_decoys")
-    r = [n for n in ast.walk(gw.node) if isinstance(n, ast.Return)]
-    ok_w = len(r) == 1 and ast.unparse(r[0].value) == \
-        f"{gw.params[0]}['stripped sequence'].map(" \
-        f"{gw.params[1]}.peptide_map.get)"
-    ctx.check(ok_w, "C15a-unique-map-only", gw,
+    gT = Terms(DefUse(prog, gw))
+    r = [t for _r, t in gT.returns()]
+    want_w = ("mcall", ("sub", ("param", gw.params[0]),
+                        ("const", "stripped sequence")), "map",
+              (("attr", ("attr", ("param", gw.params[1]), "peptide_map"),
+                "get"),), ())
+    ctx.check(r == [want_w], "C15a-unique-map-only", gw,
               "stripped sequences are looked up in the unique-peptide map "
               "only (shared peptides never contribute)",
-              f"{[ast.unparse(x.value)[:100] for x in r]}", node=gw.node)
+              f"{[show(x, 120) for x in r]}", node=gw.node)
+
     # unmatched removed before the pick
-    filt = [n for n in f.node.body if isinstance(n, ast.Assign)
-            and ast.unparse(n.targets[0]) == frame
-            and ast.unparse(n.value).replace(" ", "") ==
-            f"{frame}.loc[~unmatched,:]"]
-    un = [n for n in f.node.body if isinstance(n, ast.Assign)
-          and ast.unparse(n.targets[0]) == "unmatched"]
-    pick = [n for n in ast.walk(f.node) if isinstance(n, ast.Call)
-            and ast.unparse(n.func).endswith("groupby_max")]
-    ctx.require(len(pick) == 1, f"{f.qual}: groupby_max call not found")
-    ok_f = len(filt) == 1 and len(un) == 1 and ast.unparse(
-        un[0].value) == f"pd.isna({frame}['mokapot protein group'])" and \
-        cfg.every_path_passes(cfg.entry.id, cfg.node_of(pick[0]).id,
-                              {cfg.node_of(filt[0]).id})
+    def strip_w(t):
+        while t[0] in ("store", "mut"):
+            t = t[1]
+        return t
+
+    ok_f = True
+    for x in facts.values():
+        m = x["rowmask"]
+        ok_f = ok_f and m is not None and m[0] == "un" and m[1] == "~" \
+            and strip_w(m[2]) == (
+            "call", "pandas.isna",
+            (("sub", x["F2"], ("const", "mokapot protein group")),), ())
     ctx.check(ok_f, "C15a-unmatched-removed-before-pick", f,
               "rows without a protein group are removed before the pick",
-              "unmatched rows can take part in the competition",
-              node=pick[0])
+              f"rows kept: {show(fx['rowmask'], 120) if fx['rowmask'] else 'all'}"
+              f" (layers {fx['order']}): unmatched rows can take part in "
+              "the competition", node=f.node)
     # pairing key
-    dk = stores.get((frame, "decoy"), [])
-    ok_d = False
-    why = f"{[ast.unparse(d.value)[:120] for d in dk]}"
-    if len(dk) == 1:
-        t = Terms(du).of(dk[0].value)
-        # .map(lambda x: proteins.protein_map.get(x, x)) of split(',')[0]
-        if t[0] == "mcall" and t[2] == "map" and t[3] and \
+    ok_d = True
+    why = ""
+    for x in facts.values():
+        t = x["decoy"]
+        okx = False
+        if t is None:
+            why = ("the frame the result is taken from has no 'decoy' "
+                   "pairing column")
+        elif t[0] == "mcall" and t[2] == "map" and t[3] and \
                 t[3][0][0] == "lambda" and len(t[3][0][1]) == 1:
-            x = ("lparam", t[3][0][1][0])
+            lx = ("lparam", t[3][0][1][0])
             body = t[3][0][2]
-            ok_l = body == ("mcall", ("attr", ("param", p_prot),
-                                      "protein_map"), "get", (x, x), ())
+            ok_l = body == ("mcall", ("attr", P[p_prot], "protein_map"),
+                            "get", (lx, lx), ())
             base = t[1]
             ok_b = (base[0] == "sub" and base[2] == ("const", 0)
                     and base[1][0] == "mcall" and base[1][2] == "split"
                     and base[1][3][:1] == (("const", ","),)
                     and dict(base[1][4]).get("expand") == ("const", True)
-                    and any(y == ("const", "mokapot protein group")
-                            for y in walk_term(base[1][1])))
-            ok_d = ok_l and ok_b
+                    and base[1][1][0] == "attr" and base[1][1][2] == "str"
+                    and base[1][1][1][0] == "sub" and base[1][1][1][2] == (
+                        "const", "mokapot protein group")
+                    and base[1][1][1][1] in (x["F3"], x["F2"]))
+            okx = ok_l and ok_b
             if not ok_l:
                 why = (f"pairing function is {show(body, 100)}: a target "
                        "group must map to its decoy's name and a decoy to "
                        "itself (protein_map.get(x, x))")
+            elif not ok_b:
+                why = f"pairing key is taken from {show(base, 140)}"
         else:
             why = (f"pairing key is {show(t, 140)}: expected the first "
                    "group member passed through protein_map.get(x, x)")
+        ok_d = ok_d and okx
     ctx.check(ok_d, "C15c-pairing-key", f,
               "target group and decoy counterpart share one key: first "
               "member of the group, targets mapped to their decoy name, "
-              "decoys to themselves", why, node=dk[0] if dk else f.node)
+              "decoys to themselves", why, node=f.node)
     # the pick and its application
-    a = [ast.unparse(x) for x in pick[0].args]
-    ok_p = a == [frame, "['decoy']", p_sc, p_rng]
+    ok_p = all(norm_calls(prog, x["pick"]) == norm_calls(prog, (
+        "call", "mokapot.utils.groupby_max",
+        (x["F4"], ("list", (("const", "decoy"),)), P[p_sc], P[p_rng]), ()))
+        for x in facts.values())
     ctx.check(ok_p, "C15b-pick-arguments", f,
               "the best row per pairing key is picked by score with the "
-              "run's rng", f"groupby_max({a})", node=pick[0])
-    rets = [n for n in ast.walk(f.node) if isinstance(n, ast.Return)]
-    pi = [n for n in f.node.body if isinstance(n, ast.Assign)
-          and n.value is pick[0]]
-    ok_r = len(rets) == 1 and pi and ast.unparse(rets[0].value) == \
-        f"{frame}.loc[{ast.unparse(pi[0].targets[0])}, final_cols]"
-    fd = [n for n in f.node.body if isinstance(n, ast.Assign)
-          and ast.unparse(n.targets[0]) == frame]
-    # no re-binding of the frame between pick and return
-    if ok_r:
-        pn, rn = cfg.node_of(pick[0]).id, cfg.node_of(rets[0]).id
-        between = [d for d in fd if not cfg.every_path_passes(
-            pn, rn, set()) and False]
-        later = [d for d in fd if d.lineno > pick[0].lineno]
-        ok_r = not later
-    ctx.check(bool(ok_r), "C15c-labels-applied-to-same-frame", f,
+              "run's rng", f"pick is {show(fx['pick'], 160)}", node=f.node)
+    ctx.check(ok_p, "C15c-labels-applied-to-same-frame", f,
               "the picked index labels select rows (.loc) of the very frame "
               "they were computed from",
-              f"{[ast.unparse(r)[:80] for r in rets]}", node=pick[0])
-    fc = [n for n in f.node.body if isinstance(n, ast.Assign)
-          and ast.unparse(n.targets[0]) == "final_cols"]
-    ok_c = len(fc) == 1 and [ast.unparse(e) for e in fc[0].value.elts] == [
-        "'mokapot protein group'", "'best peptide'", "'stripped sequence'",
-        p_sc, p_tc]
-    ctx.check(ok_c, "C15c-result-columns", f,
+              "the labels are computed on another frame than the one they "
+              "are applied to", node=f.node)
+    want_cols = ("list", (("const", "mokapot protein group"),
+                          ("const", "best peptide"),
+                          ("const", "stripped sequence"), P[p_sc], P[p_tc]))
+    ctx.check(all(x["cols"] == want_cols for x in facts.values()),
+              "C15c-result-columns", f,
               "the entry reports group, best peptide, stripped sequence, "
               "score and label",
-              f"{[ast.unparse(x.value) for x in fc]}", node=f.node)
+              f"columns are {show(fx['cols'], 160)}", node=f.node)
 
 
 def _groupby_max(ctx, f):
